@@ -156,7 +156,8 @@ class Ctx:
             self.cov["more_violations_same_key"] = self.cov.get("more_violations_same_key", 0) + 1
             return True
         n = len(self.violations) + 1
-        rp = os.path.join(VERIF, "replays", "%s-%d.ndjson" % (self.prop, n))
+        # replays of runs against another tree (self-tests, mutants: VERIF_REPLAYS) are kept apart from /verif/replays
+        rp = os.path.join(os.environ.get("VERIF_REPLAYS") or os.path.join(VERIF, "replays"), "%s-%d.ndjson" % (self.prop, n))
         os.makedirs(os.path.dirname(rp), exist_ok=True)
         if replay_src and os.path.exists(replay_src):
             shutil.copyfile(replay_src, rp)
